@@ -247,6 +247,9 @@ pub enum Op {
     Rebuild,
     ExtraPut { table: u8, key: Vec<u8>, val: Vec<u8> },
     ExtraDel { table: u8, key: Vec<u8> },
+    /// fault injection: apply the inner operation while every LMDB reader slot is taken
+    /// (as under many concurrent queries), so that lookups inside it fail with MDB_READERS_FULL
+    Pressure(Box<Op>),
 }
 
 #[derive(Clone, Copy, Debug)]
@@ -261,6 +264,7 @@ pub struct OpWeights {
     pub reopen: u32,
     pub rebuild: u32,
     pub extra: u32,
+    pub pressure: u32,
 }
 
 impl Default for OpWeights {
@@ -276,6 +280,7 @@ impl Default for OpWeights {
             reopen: 1,
             rebuild: 0,
             extra: 0,
+            pressure: 0,
         }
     }
 }
@@ -335,6 +340,16 @@ pub fn op_strategy(w: OpWeights, cfg: EvCfg) -> BoxedStrategy<Op> {
         ]
         .boxed(),
     ));
+    if w.pressure > 0 {
+        let inner = prop_oneof![
+            2 => gen_event(cfg).prop_map(Op::Store),
+            1 => any::<u16>().prop_map(Op::Resubmit),
+            2 => (any::<u16>(), time_pool(), content_len_strategy()).prop_map(|(of, created_at, content_len)| Op::Version { of, created_at, content_len }),
+            4 => (0u8..cfg.authors, time_pool(), prop::collection::vec(del_target(), 1..4)).prop_map(|(author, created_at, targets)| Op::DeleteReq { author, created_at, targets }),
+            2 => (any::<u16>(), any::<bool>(), -3i8..4).prop_map(|(of, by_addr, dt)| Op::DeleteOwn { of, by_addr, dt }),
+        ];
+        v.push((w.pressure, inner.prop_map(|o| Op::Pressure(Box::new(o))).boxed()));
+    }
     let v: Vec<(u32, BoxedStrategy<Op>)> = v.into_iter().filter(|(w, _)| *w > 0).collect();
     proptest::strategy::Union::new_weighted(v).boxed()
 }
@@ -679,10 +694,9 @@ impl World {
 
     /// The address (kind, author, d) of a model event, if it has one.
     pub fn address_of(m: &MEvent) -> Option<(u16, String, String)> {
-        let k = Kind::from_u16(m.kind);
-        if k.is_replaceable() {
+        if kind_is_replaceable(m.kind) {
             Some((m.kind, m.pubkey.clone(), String::new()))
-        } else if k.is_parameterized_replaceable() {
+        } else if kind_is_param_replaceable(m.kind) {
             m.d_value().map(|d| (m.kind, m.pubkey.clone(), d.to_string()))
         } else {
             None
@@ -710,7 +724,7 @@ impl World {
                 }
                 DelTarget::A { kind, author: a, d } => {
                     // non-parameterised replaceable addresses have an empty d
-                    let d = if Kind::from_u16(*kind).is_replaceable() { String::new() } else { d.clone() };
+                    let d = if kind_is_replaceable(*kind) { String::new() } else { d.clone() };
                     tags.push(vec!["a".to_string(), format!("{}:{}:{}", kind, author(*a), d)])
                 }
                 DelTarget::AMalformed(s) => tags.push(vec!["a".to_string(), s.clone()]),
@@ -857,7 +871,23 @@ impl World {
             Op::Rebuild => Some(Concrete::Rebuild),
             Op::ExtraPut { table, key, val } => Some(Concrete::Extra(*table, key.clone(), Some(val.clone()))),
             Op::ExtraDel { table, key } => Some(Concrete::Extra(*table, key.clone(), None)),
+            Op::Pressure(inner) => self.concretise(inner).map(|c| Concrete::Pressure(Box::new(c))),
         }
+    }
+
+    /// Takes every free LMDB reader slot (released when the returned guard is dropped).
+    pub fn exhaust_readers(&self) -> Vec<pocket_db::heed::RoTxn<'static>> {
+        let st = self.st();
+        let mut held: Vec<pocket_db::heed::RoTxn<'static>> = Vec::new();
+        for _ in 0..300 {
+            match st.read_txn() {
+                // SAFETY: the transactions are dropped before the store is closed (callers hold them only
+                // across one operation on the same, still open store)
+                Ok(t) => held.push(unsafe { std::mem::transmute::<pocket_db::heed::RoTxn<'_>, pocket_db::heed::RoTxn<'static>>(t) }),
+                Err(_) => break,
+            }
+        }
+        held
     }
 
     pub fn apply(&mut self, c: &Concrete) -> Step {
@@ -886,6 +916,14 @@ impl World {
                 kind: StepKind::Extra,
                 res: self.extra_put(*t, k, v.as_deref()),
             },
+            Concrete::Pressure(inner) => {
+                let held = self.exhaust_readers();
+                let full = held.len() >= 100;
+                let step = self.apply(inner);
+                drop(held);
+                let _ = full;
+                step
+            }
         }
     }
 
@@ -979,8 +1017,8 @@ impl World {
                     let _ = tagvals.insert((t[0].clone(), t[1].clone()));
                 }
                 if e.kind == 5 && t.len() >= 2 && t[0] == "a" {
-                    if let Ok(a) = Addr::try_from_bytes(t[1].as_bytes()) {
-                        let _ = addrs.insert((a.kind.as_u16(), hex(a.author.as_slice()), String::from_utf8_lossy(&a.d).to_string()));
+                    if let Some(a) = parse_addr(&t[1]) {
+                        let _ = addrs.insert(a);
                     }
                 }
             }
@@ -1020,10 +1058,10 @@ impl World {
                         Err(e) => format!("err:{}", crate::props::c01::err_class(&e)),
                     },
                 );
-                if Kind::from_u16(*k).is_replaceable() {
+                if kind_is_replaceable(*k) {
                     let r = st.find_replaceable_event(addr.author, addr.kind).map_err(|e| format!("find_replaceable_event: {e}"))?;
                     let _ = s.insert(format!("find_replaceable_event:{key}"), r.map(|e| short(&hex(e.id().as_slice()))).unwrap_or("none".into()));
-                } else if Kind::from_u16(*k).is_parameterized_replaceable() {
+                } else if kind_is_param_replaceable(*k) {
                     let r = st.find_parameterized_replaceable_event(&addr).map_err(|e| format!("find_parameterized_replaceable_event: {e}"))?;
                     let _ = s.insert(
                         format!("find_parameterized_replaceable_event:{key}#{:x}", fingerprint(d) & 0xffff),
@@ -1150,6 +1188,20 @@ pub enum Concrete {
     Reopen,
     Rebuild,
     Extra(u8, Vec<u8>, Option<Vec<u8>>),
+    Pressure(Box<Concrete>),
+}
+
+impl Concrete {
+    /// The operation itself, looking through fault-injection wrappers.
+    pub fn inner(&self) -> &Concrete {
+        match self {
+            Concrete::Pressure(c) => c.inner(),
+            c => c,
+        }
+    }
+    pub fn under_pressure(&self) -> bool {
+        matches!(self, Concrete::Pressure(_))
+    }
 }
 
 pub fn idx16(i: u16, n: usize) -> usize {
